@@ -64,3 +64,7 @@ ENGINE['C07'] = 'odex'
 CHECKS['C07'] = ('Taylor-mode execution of the real public entry points on exact power series (Picard iteration through the real right-hand sides) with z3 deciding coefficient equality for all tau, gamma; vector-field conjugacy with all quantities symbolic decided by z3 after clearing denominators',
                  'all members of each equivalence group return S, I, R series that coincide to order m for all tau, gamma on the graphs / degree sequences of the bound (bounded statement); EBCM -> compact pairwise: D phi . f = g o phi for all states and parameters with degree support K <= 3 (4), hence equality for all t',
                  'rational arithmetic exact; rho and degree sequence enumerated in the Taylor line; order m = 6 (10); L5', 'DESIGN.md 6/C07')
+ENGINE['C08'] = 'odex'
+CHECKS['C08'] = ('Taylor-mode execution of the real pair-based code vs the master equation as exact polynomial series (z3 on coefficients); Taylor limits tau=0 / gamma=0; final-size relations as rational-function identities with all quantities symbolic (z3 after clearing denominators)',
+                 'pair-based = master-equation expectation to order m on every tree of the bound incl. symbolic weights (triangle rejected: non-vacuous); tau=0 and gamma=0 limits for every model to order m; k iterations of the attack-rate maps = reference maps, EBCM rest points = fixed points of the attack-rate map, EBCM_discrete bookkeeping, *_from_graph = direct',
+                 'bounded in the Taylor order (trees <= 4 (5) nodes, m = 6 (8)); convergence of iterations / t->infinity not claimed; L5', 'DESIGN.md 6/C08')
